@@ -15,8 +15,8 @@ import (
 	"sync"
 
 	cli "github.com/jawher/mow.cli"
-	"github.com/jawher/mow.cli/internal/zverif/vsched"
 	"github.com/jawher/mow.cli/internal/zverif/ref"
+	"github.com/jawher/mow.cli/internal/zverif/vsched"
 )
 
 // C20: applications are independent and deterministic.
@@ -69,11 +69,11 @@ func c20Install() {
 // variable, a rejection, a help request, hooks and Exit, nested repetitions, implicit spec)
 
 type template struct {
-	name string
-	env  map[string]string // environment at declaration time
-	run  func() string     // build + run, returns the outcome (without output stream / exit codes)
-	must string            // the outcome must contain this text (absolute expectation)
-	setsEnv bool           // changes the environment while it runs: not usable concurrently
+	name    string
+	env     map[string]string // environment at declaration time
+	run     func() string     // build + run, returns the outcome (without output stream / exit codes)
+	must    string            // the outcome must contain this text (absolute expectation)
+	setsEnv bool              // changes the environment while it runs: not usable concurrently
 }
 
 // runHere calls Run on the current goroutine; an exit ends the goroutine, so templates that may
